@@ -140,6 +140,29 @@ for v in VIEWS:
     emit('        }')
     emit('    }')
 
+# RFC 4884 length scaling through the real views (contract mirror of split_payload_extension / payload / extension)
+for fam, unit_len, lo in (('icmpv4', 4, 5), ('icmpv6', 8, 4)):
+    for modn, T in (('time_exceeded', 'TimeExceededPacket'), ('destination_unreachable', 'DestinationUnreachablePacket')):
+        pre = 'icmp4_' if fam == 'icmpv4' else 'icmp6_'
+        h = 'k_%s%s_split_contract' % (pre, T)
+        emit('    //@harness %s mode=bounded bound="ICMP message <= 208 octets, every length attribute 0..=255" timeout=900' % h)
+        emit('    #[kani::proof]')
+        emit('    fn %s() {' % h)
+        emit('        let buf: [u8; 208] = kani::any();')
+        emit('        let len: usize = kani::any(); kani::assume(len >= 8 && len <= 208);')
+        emit('        let p = crate::%s::%s::%s::new_view(&buf[..len]).unwrap();' % (fam, modn, T))
+        emit('        let length = usize::from(buf[%d]) * %d;      // RFC 4884: length attribute in %d-octet words' % (lo, unit_len, unit_len))
+        emit('        let plen = len - 8;')
+        emit('        let start = if length > plen { None } else if plen > 128 { let s = if length > 128 { length } else { 128 }; if plen - s >= 4 { Some(s) } else { None } } else { None };')
+        emit('        let d = p.payload(); let e = p.extension();')
+        emit('        match (start, e) {')
+        emit('            (None, None) => { assert!(d.len() == plen); }')
+        emit('            (Some(s), Some(x)) => { assert!(x.len() == plen - s); assert!(d.len() == if length > 0 { length } else { 128 }); assert!(x.as_ptr() as usize == buf.as_ptr() as usize + 8 + s); }')
+        emit('            _ => { assert!(false); }')
+        emit('        }')
+        emit('        assert!(d.as_ptr() as usize == buf.as_ptr() as usize + 8);')
+        emit('    }')
+
 # Buffer::get_bytes (trusted contract in the Verus unit): discharged here for the three sizes used
 for n in (2, 4, 16):
     emit('    //@harness k_buffer_get_bytes_%d mode=complete timeout=300' % n)
